@@ -22,6 +22,72 @@ const (
 type cons struct {
 	Kind string   `json:"kind"`
 	Args []string `json:"args,omitempty"`
+	// Ovr: the app registers a custom constraint under this built-in name; the documentation
+	// (guide/routing.md, "Custom Constraint") says the custom one is used instead of the built-in
+	Ovr bool `json:"overridden_by_custom,omitempty"`
+}
+
+// overrideConstraint is a custom constraint registered under the name of a built-in one, with a
+// predicate that disagrees with the built-in on some values.
+type overrideConstraint struct {
+	name string
+	f    func(v string, args []string) bool
+}
+
+func (o overrideConstraint) Name() string                          { return o.name }
+func (o overrideConstraint) Execute(v string, args ...string) bool { return o.f(v, args) }
+
+func argN(args []string) int {
+	if len(args) == 0 {
+		return 0
+	}
+	n, _ := strconv.Atoi(args[0])
+	return n
+}
+
+var overrideCatalogue = []overrideConstraint{
+	// int: digits only, no sign
+	{"int", func(v string, _ []string) bool {
+		for i := 0; i < len(v); i++ {
+			if v[i] < '0' || v[i] > '9' {
+				return false
+			}
+		}
+		return v != ""
+	}},
+	// bool: yes / no
+	{"bool", func(v string, _ []string) bool { return v == "yes" || v == "no" }},
+	// alpha: lower-case ASCII letters only
+	{"alpha", func(v string, _ []string) bool {
+		for i := 0; i < len(v); i++ {
+			if v[i] < 'a' || v[i] > 'z' {
+				return false
+			}
+		}
+		return v != ""
+	}},
+	// maxLen(n): strictly shorter than n
+	{"maxLen", func(v string, args []string) bool { return len(v) < argN(args) }},
+	// minLen(n): strictly longer than n
+	{"minLen", func(v string, args []string) bool { return len(v) > argN(args) }},
+}
+
+func overrideOf(kind string) *overrideConstraint {
+	for i := range overrideCatalogue {
+		if overrideCatalogue[i].name == kind {
+			return &overrideCatalogue[i]
+		}
+	}
+	return nil
+}
+
+// value pools of the overriding constraints (same names and arguments as in consPool)
+var overridePool = map[string]consSpec{
+	"int":    {c: cons{Kind: "int", Ovr: true}, good: []string{"0", "7", "42", "123456789"}, bad: []string{"-5", "+5", "-15", "a", "1a"}, dash: true},
+	"bool":   {c: cons{Kind: "bool", Ovr: true}, good: []string{"yes", "no"}, bad: []string{"true", "false", "1", "maybe"}},
+	"alpha":  {c: cons{Kind: "alpha", Ovr: true}, good: []string{"abc", "z"}, bad: []string{"Rick", "Z", "ab1"}},
+	"maxLen": {c: cons{Kind: "maxLen", Args: []string{"3"}, Ovr: true}, good: []string{"a", "ab", "12"}, bad: []string{"abc", "abcd", "12345"}},
+	"minLen": {c: cons{Kind: "minLen", Args: []string{"4"}, Ovr: true}, good: []string{"abcde", "12345678"}, bad: []string{"abcd", "abc", "a"}},
 }
 
 type tok struct {
@@ -198,6 +264,11 @@ func evalCons(c cons, v string) int {
 		return 0
 	}
 	argInt := func(i int) int { n, _ := strconv.Atoi(c.Args[i]); return n }
+	if c.Ovr {
+		if o := overrideOf(c.Kind); o != nil {
+			return tri(o.f(v, c.Args), true)
+		}
+	}
 	switch c.Kind {
 	case "int":
 		return tri(reIntSure.MatchString(v), !reIntMaybe.MatchString(v) || hugeInt(v) != 0)
@@ -350,12 +421,23 @@ func (upperConstraint) Execute(param string, _ ...string) bool {
 
 // genConsToken picks 1–2 compatible constraints and returns them with value pools that
 // satisfy / violate the conjunction (as far as certainly known).
-func genCons(r *gen.Rand) (cs []cons, good, bad, odd []string, dash bool) {
-	a := consPool[r.Intn(len(consPool))]
+// ovr: the case registers the overriding custom constraints, so every constraint with an
+// overridden name is the custom one.
+func genCons(r *gen.Rand, ovr bool) (cs []cons, good, bad, odd []string, dash bool) {
+	pick := func() consSpec {
+		x := consPool[r.Intn(len(consPool))]
+		if ovr {
+			if o, ok := overridePool[x.c.Kind]; ok {
+				return o
+			}
+		}
+		return x
+	}
+	a := pick()
 	cs = []cons{a.c}
 	good, bad, odd, dash = a.good, a.bad, a.odd, a.dash
 	if r.Chance(1, 4) {
-		b := consPool[r.Intn(len(consPool))]
+		b := pick()
 		if b.c.Kind != a.c.Kind {
 			cs = append(cs, b.c)
 			dash = dash || b.dash
